@@ -104,8 +104,12 @@ func (em *emitter) emitNodes(nodes []ast.Node) {
 		case *ast.For:
 			currentBreakable := em.breakable
 			currentBreakLabel := em.breakLabel
+			currentInForRange := em.inForRange
 			em.breakable = true
 			em.breakLabel = nil
+			// A continue statement in the body refers to this statement,
+			// also if this statement is in the body of a for range statement.
+			em.inForRange = false
 			em.fb.enterScope()
 			if node.Init != nil {
 				em.emitNodes([]ast.Node{node.Init})
@@ -132,6 +136,7 @@ func (em *emitter) emitNodes(nodes []ast.Node) {
 				endForLabel := em.fb.newLabel()
 				em.rangeLabels = append(em.rangeLabels, forLabel)
 				em.emitNodes(node.Body)
+				em.rangeLabels = em.rangeLabels[:len(em.rangeLabels)-1]
 				if node.Post != nil {
 					em.emitNodes([]ast.Node{node.Post})
 				}
@@ -144,6 +149,7 @@ func (em *emitter) emitNodes(nodes []ast.Node) {
 			}
 			em.breakable = currentBreakable
 			em.breakLabel = currentBreakLabel
+			em.inForRange = currentInForRange
 
 		case *ast.ForRange:
 			em.emitForRange(node)
